@@ -201,9 +201,10 @@ fn make_tiny(cs: u32, want: u32, weight: u64) -> Option<Volume> {
     None
 }
 
-fn volumes() -> Vec<Volume> {
+fn volumes(tier: Tier) -> Vec<Volume> {
     let mut v = Vec::new();
-    for &(cs, w) in &[(512u32, 40u64), (1024, 25), (4096, 12), (32768, 3)] {
+    let big = tier.pick((12u64, 3u64), (8, 1));
+    for &(cs, w) in &[(512u32, 40u64), (1024, 25), (4096, big.0), (32768, big.1)] {
         let spc = cs / 512;
         // roomy volumes of each FAT type: allocation never fails
         for &(ft, clusters, wf) in
@@ -454,6 +455,8 @@ fn exec<'a>(
 // ---------------------------------------------------------------------------------------------------------------
 
 struct Gen {
+    /// the previous op was a seek to an interesting offset and this one shall truncate there
+    pending_truncate: bool,
     rng: SplitMix64,
     cs: u64,
     /// bytes this history may still move (keeps lines of big-cluster volumes cheap for the Lean side)
@@ -470,20 +473,16 @@ impl Gen {
     fn offset(&mut self, sh: &Shadow) -> u64 {
         let cs = self.cs;
         let k = self.rng.range(1, 4);
-        let c = match self.rng.below(14) {
-            0 => 0,
-            1 => 1,
-            2 => k * cs - 1,
-            3 => k * cs,
-            4 => k * cs + 1,
-            5 => sh.size.saturating_sub(1),
-            6 => sh.size,
-            7 => sh.size + 1,
-            8 => sh.pos.saturating_sub(1),
-            9 => sh.pos + 1,
-            10 => (sh.size / cs) * cs,
-            11 => ((sh.size + cs - 1) / cs) * cs,
-            12 => self.rng.below(sh.size + 2),
+        let d = self.rng.below(5); // 0..=4  →  −2..=+2
+        let c = match self.rng.below(12) {
+            0 => self.rng.below(3),
+            1 | 2 | 3 => (k * cs + d).saturating_sub(2),
+            4 | 5 => (sh.size + d).saturating_sub(2),
+            6 => (sh.pos + d).saturating_sub(2),
+            7 => (sh.size / cs) * cs,
+            8 => ((sh.size + cs - 1) / cs) * cs,
+            9 => (((sh.size + cs - 1) / cs) * cs + d).saturating_sub(2),
+            10 => self.rng.below(sh.size + 2),
             _ => self.rng.below(sh.size + cs + 2),
         };
         c
@@ -494,19 +493,15 @@ impl Gen {
         let cs = self.cs;
         let to_boundary = cs - sh.pos % cs;
         let to_end = sh.size.saturating_sub(sh.pos);
+        let d = self.rng.below(5); // 0..=4  →  −2..=+2
         let c = match self.rng.below(16) {
             0 => 0,
             1 => 1,
-            2 => to_boundary.saturating_sub(1),
-            3 => to_boundary,
-            4 => to_boundary + 1,
-            5 => to_end.saturating_sub(1),
-            6 => to_end,
-            7 => to_end + 1,
-            8 => cs - 1,
-            9 => cs,
-            10 => cs + 1,
-            11 => 2 * cs + self.rng.below(3) - 1,
+            2 | 3 | 4 => (to_boundary + d).saturating_sub(2),
+            5 | 6 | 7 => (to_end + d).saturating_sub(2),
+            8 | 9 => (cs + d).saturating_sub(2),
+            10 => (2 * cs + d).saturating_sub(2),
+            11 => self.rng.below(to_end + 1),
             12 => self.rng.below(3 * cs + 2),
             _ => self.small(),
         };
@@ -553,6 +548,10 @@ impl Gen {
     }
 
     fn op(&mut self, sh: &Shadow, first: bool) -> Op {
+        if self.pending_truncate {
+            self.pending_truncate = false;
+            return Op::Truncate;
+        }
         if first && self.rng.chance(2, 3) {
             // start with a file of an interesting size
             let k = self.rng.below(4);
@@ -570,7 +569,16 @@ impl Gen {
         }
         match self.rng.below(100) {
             0..=21 => Op::Read(self.length(sh)),
-            22..=31 => Op::ReadExact(self.length(sh)),
+            22..=31 => {
+                let n = self.length(sh);
+                let to_end = sh.size.saturating_sub(sh.pos) as usize;
+                // mostly satisfiable requests; the EOF error path keeps a third of the cases
+                if n > to_end && self.rng.chance(2, 3) {
+                    Op::ReadExact(self.rng.below(to_end as u64 + 1) as usize)
+                } else {
+                    Op::ReadExact(n)
+                }
+            }
             32..=49 => {
                 let n = self.length(sh);
                 Op::Write(self.data(n))
@@ -579,7 +587,11 @@ impl Gen {
                 let n = self.length(sh);
                 Op::WriteAll(self.data(n))
             }
-            62..=84 => self.seek(sh),
+            62..=84 => {
+                // truncation at each interesting offset: a seek followed by a truncate
+                self.pending_truncate = self.rng.chance(1, 6);
+                self.seek(sh)
+            }
             85..=91 => Op::Truncate,
             92..=94 => Op::Flush,
             _ => Op::Reopen,
@@ -619,7 +631,7 @@ fn run_history(rng: &mut SplitMix64, vol: &Volume, nfiles: usize, out: &mut dyn 
     };
     let cs = u64::from(vol.cs);
     let budget = if cs <= 4096 { 40 * 1024 } else { 6 * 32768 + 4096 };
-    let mut g = Gen { rng: rng.fork(), cs, budget, seed_ctr: rng.below(1000) as u32 };
+    let mut g = Gen { pending_truncate: false, rng: rng.fork(), cs, budget, seed_ctr: rng.below(1000) as u32 };
     let nops = g.rng.range(5, 40) as usize;
     let mut shadows = vec![Shadow::default(); nfiles];
     let mut ops_s = String::new();
@@ -674,7 +686,7 @@ impl Write2 for Out<'_> {
 
 pub fn run(tier: Tier, seed: u64, out: &mut dyn std::io::Write) {
     let mut rng = SplitMix64::new(seed ^ 0xC02C_02C0_2C02_C02C);
-    let vols = volumes();
+    let vols = volumes(tier);
     let mut o = Out(out);
     let n_hist = tier.pick(3000, 200_000);
     let n_multi = tier.pick(600, 40_000);
